@@ -2,6 +2,30 @@
 NOT_APPLICABLE = {}
 
 TEXT = {
+    "C01": {
+        "technique": "property-based testing (rapid): generated Go types-as-data x value sequences x encoder configurations, round-trip oracle through an abstraction of the documented normalisations; shrunk failures kept as regression witnesses",
+        "design_ref": "DESIGN.md §5 C01, §4.2-4.3",
+        "level_text": "Thousands of generated struct types (reflect.StructOf trees over every supported kind, pointer/collection shape and tag combination, plus a catalogue of named types driven through the real Encoder[T]) with correlated record sequences, all three codecs, block sizes from 0 to larger-than-data and arbitrary flush patterns are written and read back; every delivered record must match what was written under exactly the documented normalisations. Sampled exploration: it finds type shapes and value/configuration combinations the suite never reaches, it does not prove absence.",
+        "level_note": "Trusts spec.Abs/Match as the statement of the documented normalisations and reflect.StructOf types as stand-ins for anonymous struct types; named types only via the catalogue.",
+    },
+    "C02": {
+        "technique": "property-based testing (rapid) with a differential oracle: an independent reference Avro container reader and datum decoder written from the 1.8 specification decodes the library's output",
+        "design_ref": "DESIGN.md §5 C02, §4.1",
+        "level_text": "The same generated types, values and configurations as C01, but the produced bytes are judged by a reference implementation that shares no code with the library: container framing (magic, metadata, exact counts and sizes, codec, sync, CRC, no trailing bytes), exact-fit decoding of each block under the embedded schema alone, and datum-by-datum agreement with the values written including which union branch was used.",
+        "level_note": "Trusts harness/ref (self-tested: encode/decode round trip over all encoding choices, agreement with the repository's checked-in Avro files). Where the property text does not decide null vs value (DESIGN §4.3) either branch is accepted.",
+    },
+    "C14": {
+        "technique": "property-based testing (rapid): grammar-based generation of schema documents with layout/extra-attribute metamorphosis, parse/serialise round-trip against a reference parser; native fuzz target in thorough",
+        "design_ref": "DESIGN.md §5 C14",
+        "level_text": "Schema trees over every kind and attribute are rendered with random key order, whitespace and unknown attributes; the parsed value must equal the tree, the marshalled bytes must be valid JSON that a reference parser and the library itself read back identically, and one-edit documents that encoding/json rejects must be rejected.",
+        "level_note": "Trusts ref.Render/ref.ParseSchema (cross-checked per case). Documents outside 'what a conformant writer produces' are excluded as listed in DESIGN.md.",
+    },
+    "C15": {
+        "technique": "property-based testing (rapid): generated Go types-as-data over the full kind universe and tag space, compared with an independent model of the documented mapping; recursive types evaluated in a worker subprocess",
+        "design_ref": "DESIGN.md §5 C15, §4.5",
+        "level_text": "Generated struct types (all field kinds incl. unsupported ones, every tag combination, registered types in every position) and a catalogue of named types (reuse, recursion, embedding, unexported fields, odd package path) are passed to SchemaForType; the result must be an error where the type is inexpressible, must equal an independent model of the documented mapping where it is documented, must be deterministic, structurally valid, stable under marshal/parse and usable by Schema.Codec. Self-referential types run in a subprocess with a watchdog so that a stack overflow is a verdict.",
+        "level_note": "Trusts spec.ModelSchema as the reading of the documented mapping; silent on undocumented kinds. One open known finding (KF-C15-1, named struct defined once per occurrence) is waived for exactly that clause.",
+    },
     "C17": {
         "technique": "exhaustive enumeration + property-based testing against an independent reference encoder (differential + round-trip oracle)",
         "design_ref": "DESIGN.md §5 C17",
